@@ -17,7 +17,7 @@ type Case struct {
 	GenFeat map[string]int `json:"genfeat,omitempty"`
 }
 
-var profile = prog.Profile{Control: true, MaxDepth: 5, MaxStmts: 4}
+var profile = prog.Profile{Control: true, HostChan: true, MaxDepth: 5, MaxStmts: 4}
 
 func gen(t *rapid.T) Case {
 	p, f := prog.Generate(t, profile)
